@@ -129,5 +129,35 @@ def run(ctx):
 
 
 def replay(ctx, rep):
-    print(json.dumps(rep["replay"], indent=1)[:3000])
-    return 0
+    """Recompile the specification under the hash seeds and re-run every distinct text on the recorded inputs."""
+    r = rep["replay"]
+    it = {"yaml": r["yaml"], "arch": (r.get("meta") or {}).get("kind", "").startswith(("generated-metrics", "accel"))}
+    seeds = list(range(8))
+    res = compile_under_seeds([it], seeds)
+    outs = [res[s][0] for s in seeds]
+    print("outcomes per seed:", [o.get("error", "ok") for o in outs])
+    if any("error" in o for o in outs):
+        if not all("error" in o for o in outs):
+            print("VIOLATION property=C08 replay=<given file>")
+            return 1
+        return 0
+    texts = []
+    for o in outs:
+        if o["text"] not in texts:
+            texts.append(o["text"])
+    if "inputs" not in r:
+        print("%d distinct texts; no recorded inputs to execute" % len(texts))
+        return 0
+    spec = runlib.Spec(r["yaml"])
+    data = {t: {tuple(int(x) for x in k.split(",") if x != ""): v for k, v in d.items()} for t, d in r["inputs"].items()}
+    cs = [execlib.Case(spec, t, r["extents"], data, r["scalars"], extra_ints=r.get("extra_ints")) for t in texts]
+    execlib.evaluate(cs, "c08r")
+    rc = 0
+    for c in cs:
+        print(c.text)
+        print("result:", c.raw)
+        if not c.raw.startswith("RAN;OK;OK"):
+            rc = 1
+    if rc:
+        print("VIOLATION property=C08 replay=<given file>")
+    return rc
